@@ -456,14 +456,27 @@ def np_isclose(eng, args, kw):
 
 
 def np_meshgrid(eng, args, kw):
-    if len(args) != 2 or kw:
+    import numpy as _np
+    indexing = kw.get('indexing')
+    if isinstance(indexing, AStr):
+        indexing = indexing.lit()
+    if set(kw) - {'indexing'} or indexing not in (None, 'xy', 'ij'):
         raise EngineError('np.meshgrid form')
-    x, y = (a if isinstance(a, NDArr) else NDArr(to_nd(eng, a)) for a in args)
-    if len(x.shape) != 1 or len(y.shape) != 1:
+    arrs = [a if isinstance(a, NDArr) else NDArr(to_nd(eng, a)) for a in args]
+    if not arrs or any(len(a.shape) != 1 for a in arrs):
         raise EngineError('np.meshgrid of non-vectors')
-    AXIOMS_USED.add('np.meshgrid(x, y) (default indexing xy): X[i][j] = x[j], Y[i][j] = y[i], shape (len y, len x)')
-    return (NDArr([[x.data[j] for j in range(len(x.data))] for i in range(len(y.data))]),
-            NDArr([[y.data[i] for j in range(len(x.data))] for i in range(len(y.data))]))
+    # executed by numpy itself on object arrays (index bookkeeping only; the elements are the engine's values)
+    outs = _np.meshgrid(*[nd_to_obj(eng, a) for a in arrs], indexing=indexing or 'xy')
+    return tuple(nd_from_obj(_np.array(o, dtype=object)) for o in outs)
+
+
+def np_flip(eng, args, kw):
+    import numpy as _np
+    x = args[0]
+    axis = kw.get('axis', args[1] if len(args) > 1 else None)
+    if not isinstance(x, NDArr) or not (axis is None or isinstance(axis, int)):
+        raise EngineError('np.flip form')
+    return nd_from_obj(_np.flip(nd_to_obj(eng, x), axis=axis))
 
 
 def np_unique(eng, args, kw):
@@ -562,6 +575,7 @@ NP = Namespace('np', {
     'arange': Builtin('np.arange', np_arange), 'dot': Builtin('np.dot', np_dot),
     'logical_not': Builtin('np.logical_not', np_logical_not),
     'hypot': Builtin('np.hypot', np_hypot),
+    'flip': Builtin('np.flip', np_flip),
     'unique': Builtin('np.unique', np_unique),
     'allclose': Builtin('np.allclose', np_allclose),
     'meshgrid': Builtin('np.meshgrid', np_meshgrid),
